@@ -137,151 +137,251 @@ def _grouping_predicate(ctx):
 
 
 # ---------------------------------------------------------------------- rendering classification
+_ALT_CAP = 12
+
+
+def _product(parts: List[List[str]]) -> List[str]:
+    out = [""]
+    for alts in parts:
+        out = [a + b for a in out for b in alts]
+        if len(out) > _ALT_CAP:
+            return [Q]
+    return out
+
+
+def _uniq(xs: List[str]) -> List[str]:
+    seen, out = set(), []
+    for x in xs:
+        if x not in seen:
+            seen.add(x)
+            out.append(x)
+    return out
+
+
 def _template(ctx, f, binary_param: str, depth=0) -> List[str]:
-    """Render templates of a visit_<op>_binary/unary method: strings where the processed left operand is
-    \\x00L, the right operand \\x00R, anything else \\x00?."""
+    """Render templates of a visit_<op>_binary/unary method: every alternative string the method can return,
+    where the processed left operand is \\x00L, the right operand \\x00R, anything else \\x00? (conditional
+    expressions and several `return`s give several alternatives)."""
     out = []
     cls = f.cls
 
-    def ev(e) -> str:
+    def ev(e) -> List[str]:
         if isinstance(e, ast.Constant) and isinstance(e.value, str):
-            return e.value
+            return [e.value]
         if isinstance(e, ast.BinOp) and isinstance(e.op, ast.Add):
-            return ev(e.left) + ev(e.right)
+            return _product([ev(e.left), ev(e.right)])
         if isinstance(e, ast.BinOp) and isinstance(e.op, ast.Mod) and isinstance(e.left, ast.Constant) and isinstance(e.left.value, str):
             args = e.right.elts if isinstance(e.right, ast.Tuple) else [e.right]
             parts = re.split(r"%\(?\w*\)?[srd]", e.left.value)
             if len(parts) - 1 != len(args):
-                return Q
-            s = parts[0]
+                return [Q]
+            seq = [[parts[0]]]
             for a, p in zip(args, parts[1:]):
-                s += ev(a) + p
-            return s.replace("%%", "%")
+                seq.append(ev(a))
+                seq.append([p])
+            return [s.replace("%%", "%") for s in _product(seq)]
         if isinstance(e, ast.JoinedStr):
-            s = ""
+            seq = []
             for v in e.values:
-                s += v.value if isinstance(v, ast.Constant) else ev(v.value)
-            return s
+                seq.append([v.value] if isinstance(v, ast.Constant) else ev(v.value))
+            return _product(seq)
         if isinstance(e, ast.IfExp):
-            return ev(e.body)  # first arm; other arm appended separately below
+            return _uniq(ev(e.body) + ev(e.orelse))
         if isinstance(e, ast.Call):
             nm = call_name(e) or ""
             short = nm.rsplit(".", 1)[-1]
             if short in ("_generate_generic_binary",) and len(e.args) >= 2:
-                tok = ev(e.args[1])
-                return L + tok + Rt
+                return [L + tok + Rt for tok in ev(e.args[1])]
             if short in ("_generate_generic_unary_operator",) and len(e.args) >= 2:
-                return ev(e.args[1]) + L
+                return [tok + L for tok in ev(e.args[1])]
             if short.startswith("visit_") and cls is not None and depth < 4:
                 tgt = ctx.index.resolve_method(cls, short)
                 if tgt is not None and tgt.node is not f.node:
                     sub_t = _template(ctx, tgt, tgt.params[1] if len(tgt.params) > 1 else binary_param, depth + 1)
                     if sub_t:
-                        return sub_t[0]
+                        return _uniq(sub_t) if len(sub_t) <= _ALT_CAP else [Q]
             txt = unparse(e)
             has_l = re.search(rf"\b{binary_param}\.(left|element)\b", txt) is not None
             has_r = re.search(rf"\b{binary_param}\.right\b", txt) is not None
             if has_l and not has_r:
-                return L
+                return [L]
             if has_r and not has_l:
-                return Rt
-            return Q
+                return [Rt]
+            return [Q]
         if isinstance(e, ast.Name):
             # a local bound once to a template-able expression
             binds = [v for n, v, st in name_stores(f.node) if n == e.id and v is not None]
             if len(binds) == 1 and depth < 4:
                 return ev(binds[0])
-            return Q
-        return Q
+            return [Q]
+        return [Q]
 
     for r in returns_of(f.node):
         if r.value is None:
             continue
-        out.append(ev(r.value))
-    return out
+        out.extend(ev(r.value))
+    return _uniq(out)
 
 
 _MARK = re.compile("(\x00[LR?])")
+_FUNC_HEAD = re.compile(r"^([A-Za-z_][\w.]*)\s*\(")
+# keywords that can precede `(` without being a function name
+_PREFIX_KEYWORDS = {"NOT", "AND", "OR", "IN", "EXISTS", "ANY", "ALL", "SOME", "BETWEEN", "LIKE", "IS"}
+_CONST_TAIL = re.compile(r"^(\S+(?: \S+)*?) (\d+(?:\.\d+)?|'[^']*'|NULL|TRUE|FALSE)$", re.I)
 
 
-def _analyse_template(t: str):
-    """-> (inner, outer_tokens): inner = ('infix'|'prefix', token) | ('self', None) | ('unknown', None);
-    outer_tokens = operator tokens textually adjacent to an operand marker (what an ungrouped operand
-    would be parsed against)."""
-    t = t.strip()
+def _outer_tokens(t: str):
+    """Operator tokens textually adjacent to an operand marker (what an ungrouped operand would be parsed
+    against): (before, after) = tokens standing to the LEFT of an operand / to the RIGHT of an operand.
+    None when an operand touches an unknown fragment directly."""
     parts = _MARK.split(t)  # text, marker, text, marker, ... text
     texts, marks = parts[0::2], parts[1::2]
-    if Q in marks:
-        return ("unknown", None), None
-    outer = []
+    before, after = [], []
     for i, tx in enumerate(texts):
         left_m = marks[i - 1] if i > 0 else None
         right_m = marks[i] if i < len(marks) else None
+        if left_m and right_m and not tx.strip() and Q in (left_m, right_m) and {left_m, right_m} != {Q}:
+            return None  # operand glued to an unknown fragment
+        lo = left_m if left_m != Q else None
+        ro = right_m if right_m != Q else None
         if left_m and right_m and not re.search(r"[(),]", tx):
             tok = " ".join(tx.upper().split())
-            if tok:
-                outer.append(tok)
+            if tok and lo:
+                after.append(tok)
+            if tok and ro:
+                before.append(tok)
             continue
-        if left_m:  # text to the right of an operand, up to a delimiter
+        if lo:  # text to the right of an operand, up to a delimiter
             seg = re.split(r"[(),]", tx, maxsplit=1)[0].strip()
             if seg:
-                outer.append(seg.upper().split()[0])
-        if right_m:  # text to the left of an operand, back to a delimiter
+                after.append(seg.upper().split()[0])
+        if ro:  # text to the left of an operand, back to a delimiter
             seg = re.split(r"[(),]", tx)[-1].strip()
             if seg:
-                outer.append(seg.upper().split()[-1])
-    # inner form
-    depth = 0
-    wrapped = False
-    m = re.match(r"^[A-Za-z_][\w.]*\s*\(", t)
-    start = t.find("(") if (m or t.startswith("(")) else -1
-    if start >= 0:
-        depth = 0
-        for j in range(start, len(t)):
-            if t[j] == "(":
-                depth += 1
-            elif t[j] == ")":
-                depth -= 1
-                if depth == 0:
-                    wrapped = j == len(t) - 1
-                    break
-    if wrapped:
-        return ("self", None), outer
-    if marks and t.startswith(marks[0]) and len(marks) >= 2:
-        tok = " ".join(re.split(r"[(),]", texts[1], maxsplit=1)[0].upper().split())
-        if tok:
-            return ("infix", tok), outer
-    if marks and len(marks) == 1 and t.endswith(marks[0]) and texts[0].strip():
-        return ("prefix", " ".join(texts[0].upper().split())), outer
-    return ("unknown", None), outer
+                before.append(seg.upper().split()[-1])
+    return before, after
+
+
+def _top_level_items(t: str):
+    """Depth-0 structure of a template: list of ('atom', kind) / ('text', s); a balanced `(...)` or
+    `name(...)` is one atom of kind 'G'.  None if parentheses are unbalanced."""
+    items, buf, i, n = [], "", 0, len(t)
+
+    def flush():
+        nonlocal buf
+        if buf.strip():
+            items.append(("text", " ".join(buf.upper().split())))
+        buf = ""
+
+    while i < n:
+        ch = t[i]
+        if ch == "\x00":
+            flush()
+            items.append(("atom", t[i:i + 2]))
+            i += 2
+        elif ch == "(":
+            # function head directly before?
+            m = re.search(r"([A-Za-z_][\w.]*)\s*$", buf)
+            if m and m.group(1).upper() not in _PREFIX_KEYWORDS:
+                buf = buf[:m.start()]
+            flush()
+            depth, j = 0, i
+            while j < n:
+                if t[j] == "(":
+                    depth += 1
+                elif t[j] == ")":
+                    depth -= 1
+                    if depth == 0:
+                        break
+                j += 1
+            if j >= n:
+                return None
+            items.append(("atom", "G"))
+            i = j + 1
+        elif ch == ")":
+            return None
+        else:
+            buf += ch
+            i += 1
+    flush()
+    return items
+
+
+def _analyse_template(t: str):
+    """-> (inner, outer_tokens): inner = ('op', (tokens...)) -- infix / prefix operator tokens at the top
+    level of the rendering; ('self', ()) -- delimited by its own parentheses / function call;
+    ('transparent', ()) -- the operand itself; ('unknown', ())."""
+    t = t.strip()
+    outer = _outer_tokens(t)
+    items = _top_level_items(t)
+    if items is None or not items:
+        return ("unknown", ()), outer
+    kinds = [k for k, _ in items]
+    # constant right operand: `L = 1`
+    if kinds[-1] == "text" and len(items) >= 2 and kinds[-2] == "atom":
+        m = _CONST_TAIL.match(items[-1][1])
+        if m:
+            items = items[:-1] + [("text", m.group(1)), ("atom", "C")]
+            kinds = [k for k, _ in items]
+    if "," in "".join(v for k, v in items if k == "text"):
+        return ("unknown", ()), outer
+    if kinds == ["atom"]:
+        a = items[0][1]
+        if a == "G":
+            return ("self", ()), outer
+        if a in (L, Rt):
+            return ("transparent", ()), outer
+        return ("unknown", ()), outer
+    # atom (text atom)+ : infix chain
+    if len(items) >= 3 and len(items) % 2 == 1 and all(
+            k == ("atom" if i % 2 == 0 else "text") for i, k in enumerate(kinds)):
+        if items[0][1] == Q:
+            return ("unknown", ()), outer
+        return ("op", tuple(v for k, v in items if k == "text")), outer
+    # text atom : prefix operator
+    if kinds == ["text", "atom"] and items[1][1] != Q:
+        return ("op", ("\x01" + items[0][1],)), outer
+    return ("unknown", ()), outer
 
 
 def _classify(templates: List[str]):
-    inners, outers, unknown_outer = set(), [], False
+    """Combine the alternatives: inner = ('op', tokens) if every alternative is an operator form or
+    self-delimiting (the bare operator forms decide), ('self', ()) if all are delimited, else unknown."""
+    toks, kinds, before, after, unknown_outer = [], set(), [], [], False
     for t in templates:
         inner, outer = _analyse_template(t)
-        inners.add(inner)
+        kinds.add(inner[0])
+        toks.extend(inner[1])
         if outer is None:
             unknown_outer = True
         else:
-            outers.extend(outer)
-    toks = {k for k in inners if k[0] in ("infix", "prefix")}
-    if len(inners) == 1:
-        inner = next(iter(inners))
-    elif len(toks) == 1 and all(k[0] in ("infix", "prefix", "self") for k in inners):
-        inner = next(iter(toks))  # e.g. floordiv: `a / b` or `FLOOR(a / b)`: the bare infix form decides
+            before.extend(outer[0])
+            after.extend(outer[1])
+    if not kinds or "unknown" in kinds:
+        inner = ("unknown", ())
+    elif "op" in kinds:
+        inner = ("op", tuple(_uniq(toks)))
+    elif kinds == {"self"}:
+        inner = ("self", ())
+    elif kinds <= {"self", "transparent"}:
+        inner = ("transparent", ())
     else:
-        inner = ("unknown", None)
-    return inner, (None if unknown_outer else sorted(set(outers)))
+        inner = ("unknown", ())
+    return inner, (None if unknown_outer else (sorted(set(before)), sorted(set(after))))
 
 
-def _norm_token(tok: str, unary: bool) -> str:
-    t = " ".join(tok.strip().upper().split())
+def _token_aliases() -> Dict[str, str]:
+    return {k.upper(): v.upper() for k, v in load("sql_operator_token_aliases.json")["same_production_as"].items()}
+
+
+def _norm_token(tok: str, unary: bool = False) -> str:
+    prefix = tok.startswith("\x01")
+    t = " ".join(tok.lstrip("\x01").strip().upper().split())
     if t == "%%":
         t = "%"
-    if unary and t in ("-", "~", "+"):
+    if (unary or prefix) and t in ("-", "~", "+"):
         return "u" + t
-    return t
+    return _token_aliases().get(t, t)
 
 
 def _sets_eager_grouping(f) -> bool:
@@ -294,36 +394,46 @@ def _sets_eager_grouping(f) -> bool:
     return False
 
 
-def _renderings(ctx, compiler_key: str, P: Dict[str, int]):
-    """op short name -> (inner=(kind, token), outer_tokens|None, via) for one compiler class."""
-    cls = ctx.index.cls(compiler_key)
+def _render_one(ctx, cls, op: str, gen, unary: bool):
+    """(inner=(kind, tokens), outer_tokens|None, via) of operator `op` for compiler class `cls`."""
+    cands = [f"visit_{op}_unary_operator", f"visit_{op}_unary_modifier"] if unary else [f"visit_{op}_binary"]
+    f = None
+    for mname in cands:
+        f = ctx.index.resolve_method(cls, mname)
+        if f is not None:
+            break
+    if f is not None:
+        ctx.functions_analysed.add(f.key)
+        if _sets_eager_grouping(f):
+            return ("self", ()), ([], []), f.key + " (eager_grouping: every nested operator expression is parenthesised)"
+        bp = f.params[1] if len(f.params) > 1 else "binary"
+        inner, outer = _classify(_template(ctx, f, bp))
+        if inner[0] == "op":
+            inner = ("op", tuple(_uniq([_norm_token(t, unary) for t in inner[1]])))
+        if outer is not None:
+            outer = tuple(sorted({_norm_token(t, unary) for t in side}) for side in outer)
+        return inner, outer, f.key
+    if op in gen and isinstance(gen[op], str):
+        tok = _norm_token(gen[op], unary)
+        return ("op", (tok,)), (([tok], []) if unary else ([tok], [tok])), "OPERATORS"
+    return ("unknown", ()), None, "no OPERATORS row and no visit method"
+
+
+def _generic_operators(ctx):
     cm = ctx.index.module(CMP)
     generic = require_known(ctx.ev.module_value(cm, "OPERATORS"), "OPERATORS")
-    gen = {_short(k): v for k, v in generic.items()}
+    return {_short(k): v for k, v in generic.items()}
+
+
+def _renderings(ctx, compiler_key: str, P: Dict[str, int]):
+    """op short name -> (inner=(kind, tokens), outer_tokens|None, via) for one compiler class."""
+    cls = ctx.index.cls(compiler_key)
+    gen = _generic_operators(ctx)
     out = {}
     for op in sorted(P):
         if op not in IN_SCOPE:
             continue
-        unary = op in UNARY
-        mname = f"visit_{op}_unary_operator" if unary else f"visit_{op}_binary"
-        f = ctx.index.resolve_method(cls, mname)
-        if f is not None:
-            ctx.functions_analysed.add(f.key)
-            if _sets_eager_grouping(f):
-                out[op] = (("self", None), [], f.key + " (eager_grouping: every nested operator expression is parenthesised)")
-                continue
-            bp = f.params[1] if len(f.params) > 1 else "binary"
-            inner, outer = _classify(_template(ctx, f, bp))
-            if inner[0] in ("infix", "prefix"):
-                inner = (inner[0], _norm_token(inner[1], unary))
-            if outer is not None:
-                outer = [_norm_token(t, unary) for t in outer]
-            out[op] = (inner, outer, f.key)
-        elif op in gen and isinstance(gen[op], str):
-            tok = _norm_token(gen[op], unary)
-            out[op] = (("prefix" if unary else "infix", tok), [tok], "OPERATORS")
-        else:
-            out[op] = (("unknown", None), None, "no OPERATORS row and no visit method")
+        out[op] = _render_one(ctx, cls, op, gen, op in UNARY)
     return out
 
 
@@ -368,19 +478,26 @@ def r1(ctx):
                 if inner_p[0] == "self":
                     ctx.ok(key, f"inner rendering is self-delimiting ({via_p})", nontrivial=False)
                     continue
-                if outer_q is not None and not outer_q:
+                if outer_q is not None and not outer_q[0] and not outer_q[1]:
                     ctx.ok(key, f"outer rendering delimits its operands ({via_q})", nontrivial=False)
                     continue
-                if inner_p[0] == "unknown" or outer_q is None or inner_p[1] not in lv:
+                if inner_p[0] != "op" or outer_q is None:
                     undecided += 1
                     continue
-                tp = inner_p[1]
-                known_outer = [t for t in outer_q if t in lv]
-                if not known_outer:
+                known_inner = [t for t in inner_p[1] if t in lv]
+                # a token standing BEFORE an ungrouped operand captures it unless the operand binds strictly
+                # tighter; a token standing AFTER it (same level associates left to right) unless it binds
+                # at least as tight
+                kb = [t for t in outer_q[0] if t in lv]
+                ka = [t for t in outer_q[1] if t in lv]
+                known_outer = sorted(set(kb + ka))
+                if not known_outer or not known_inner or inner_p[1][0] not in lv:
                     undecided += 1
                     continue
-                worst = max(known_outer, key=lambda t: -lv[t])  # tightest outer token
-                good = all(lv[tp] < lv[t] for t in known_outer)
+                tp = max(known_inner, key=lambda t: lv[t])  # loosest inner token
+                bad = [t for t in kb if not lv[tp] < lv[t]] + [t for t in ka if not lv[tp] <= lv[t]]
+                worst = min(bad or known_outer, key=lambda t: lv[t])  # tightest (offending) outer token
+                good = not bad
                 if dname not in PROPERTY_DIALECTS:
                     # backends outside the property's quantifier: reported for information only
                     if not good:
